@@ -587,20 +587,39 @@ def run_check(prop: str, tier: str, seed: int, replay: str | None) -> int:
 
 
 def setup() -> int:
-    """Regenerate every Gen file and build the whole Lean project."""
+    """Regenerate every Gen file and build the Lean targets of every property that has a check module."""
     GEN.mkdir(exist_ok=True)
+    targets = ["HugrVerif.Drive.Loop", "HugrVerif.AuditCmd"]
+    mods = []
     for f in sorted((VERIF / "harness" / "props").glob("C*.py")):
-        mod = importlib.import_module(f"props.{f.stem}")
+        try:
+            mod = importlib.import_module(f"props.{f.stem}")
+        except Exception as e:  # noqa: BLE001
+            log(f"[setup] cannot import props.{f.stem}: {e!r}")
+            continue
+        mods.append(mod)
         if hasattr(mod, "translate"):
-            probs = mod.translate(REPO, GEN)
+            try:
+                probs = mod.translate(REPO, GEN)
+            except Exception as e:  # noqa: BLE001
+                probs = [repr(e)]
             if probs:
                 log(f"[setup] translator problems for {f.stem}: {probs}")
-    ok, out = lake_build(["HugrVerif"])
-    if not ok:
-        log(out[-5000:])
-        return 2
-    log("[setup] lean project built")
-    return 0
+    rc = 0
+    try:
+        claimed = {c["property_id"] for c in json.loads((VERIF / "MANIFEST.json").read_text())["checks"]}
+    except Exception:  # noqa: BLE001
+        claimed = None
+    for mod in mods:
+        t = list(getattr(mod, "LEAN_TARGETS", [])) + list(getattr(mod, "DRIVE_TARGETS", []))
+        ok, out = lake_build(t + targets)
+        if not ok:
+            log(f"[setup] lean targets of {mod.PROP} do not build:\n" + out[-3000:])
+            if claimed is None or mod.PROP in claimed:
+                rc = 2
+        else:
+            log(f"[setup] {mod.PROP}: built")
+    return rc
 
 
 def main(argv=None) -> int:
